@@ -61,6 +61,7 @@ fn main() {
             Some("c19p") => gen_enc::gen_prune(&mut out, seed, thorough),
             Some("c02x") => gen_enc::gen_badplans(&mut out, seed, thorough),
             Some("c18m") => gen_enc::gen_planner(&mut out, seed, thorough),
+            Some("c10d") => gen_enc::gen_optdiff(&mut out, seed, thorough),
             Some("c08") => gen_c08::gen(&mut out, seed, thorough),
             Some("c05p") => gen_c08::gen_c05p(&mut out, seed, thorough),
             Some("c07") => gen_c07::gen(&mut out, seed, thorough),
